@@ -1,6 +1,7 @@
 import QuiverModel.Core.RefSem.Parse
 import QuiverModel.Core.RefSem.Compile0
 import QuiverModel.Core.RefSem.Compile1
+import QuiverModel.Core.RefSem.Compile2
 /-
 qm_c02 — driver for M-RefSem. Requests:
   (eval <program> <fuel>)  →  ok <canonical value> | err <Class> | fuel-out | unspecified <why> | unsupported
@@ -14,6 +15,8 @@ qm_c02 — driver for M-RefSem. Requests:
       term1 ::= (i z cidx) | (~) | (t id chain1*) | (v x) | (m pat)
       pat ::= (pt sub) | (ptup sub*)      sub ::= (b x) | (w) | (l z cidx)
       values print as i<z> | t(<id>;v,…)
+  (compile2 <chain2>+) / (eval2 <chain2>+)   the same with blocks (Core/RefSem/Compile2):
+      term2 ::= term1 | (blk branch+)      branch ::= (br (s chain2+)) | (br (s chain2+) (s chain2+))
 The evaluation is `QM.RefSem.evalProgram`, the compilation `QM.RefSem.C0.compileCh` — the definitions
 `Theorems/C02.lean` / `Theorems/C02Compile.lean` are about.
 -/
@@ -150,6 +153,92 @@ partial def showVal : QM.VM.Val → String
 def Γ₀ : List String := [""]
 end C1Glue
 
+namespace C2Glue
+open QM.RefSem.C2
+
+def parseSub : Sx → Option Sub
+  | .list [.atom "b", .atom x] => some (.bind x)
+  | .list [.atom "w"] => some .wild
+  | .list [.atom "l", z, c] =>
+    match z.asInt, c.asNat with
+    | some z, some c => some (.lit z c)
+    | _, _ => none
+  | _ => none
+
+def parseSubs : List Sx → Option (List Sub)
+  | [] => some []
+  | s :: r =>
+    match parseSub s, parseSubs r with
+    | some s, some r => some (s :: r)
+    | _, _ => none
+
+def parsePat : Sx → Option Pat1
+  | .list [.atom "pt", s] => (parseSub s).map Pat1.top
+  | .list (.atom "ptup" :: ss) => (parseSubs ss).map Pat1.tup
+  | _ => none
+
+mutual
+  partial def parseT : Sx → Option T1
+    | .list [.atom "i", z, c] =>
+      match z.asInt, c.asNat with
+      | some z, some c => some (.int z c)
+      | _, _ => none
+    | .list [.atom "~"] => some .ripple
+    | .list [.atom "v", .atom x] => some (.var x)
+    | .list [.atom "m", p] => (parsePat p).map T1.mtch
+    | .list (.atom "blk" :: bs) => (parseBrs bs).map T1.block
+    | .list (.atom "t" :: id :: fs) =>
+      match id.asNat, parseFs fs with
+      | some id, some fs => some (.tup id fs)
+      | _, _ => none
+    | _ => none
+  partial def parseCh : Sx → Option Ch1
+    | .list (.atom "ch" :: ts) => parseTs ts
+    | _ => none
+  partial def parseTs : List Sx → Option Ch1
+    | [] => some .nil
+    | t :: r =>
+      match parseT t, parseTs r with
+      | some t, some r => some (.cons t r)
+      | _, _ => none
+  partial def parseFs : List Sx → Option Fs1
+    | [] => some .nil
+    | c :: r =>
+      match parseCh c, parseFs r with
+      | some c, some r => some (.cons c r)
+      | _, _ => none
+  partial def parseSq : List Sx → Option Sq1
+    | [c] => (parseCh c).map Sq1.last
+    | c :: r =>
+      match parseCh c, parseSq r with
+      | some c, some r => some (.cons c r)
+      | _, _ => none
+    | [] => none
+  partial def parseS : Sx → Option Sq1
+    | .list (.atom "s" :: cs) => parseSq cs
+    | _ => none
+  partial def parseBrs : List Sx → Option Brs1
+    | [] => some .nil
+    | .list [.atom "br", c] :: r =>
+      match parseS c, parseBrs r with
+      | some c, some r => some (.cons c .none r)
+      | _, _ => none
+    | .list [.atom "br", c, k] :: r =>
+      match parseS c, parseS k, parseBrs r with
+      | some c, some k, some r => some (.cons c (.some k) r)
+      | _, _, _ => none
+    | _ => none
+end
+
+partial def showVal : QM.VM.Val → String
+  | .int z => s!"i{z}"
+  | .tup id fs => s!"t({id};" ++ ",".intercalate (fs.toList.map showVal) ++ ")"
+  | _ => "?"
+
+/-- the entry function's frame: one anonymous slot holding the (nil) parameter -/
+def Γ₀ : List String := [""]
+end C2Glue
+
 def c02Step (_ : Unit) (req : List Sx) : Unit × String :=
   match req with
   | [.list [.atom "eval", prog, fuel]] =>
@@ -176,6 +265,17 @@ def c02Step (_ : Unit) (req : List Sx) : Unit × String :=
     | some sq =>
       match QM.RefSem.C1.evalSq C1Glue.Γ₀ [QM.VM.Val.nil] QM.VM.Val.nil sq with
       | some (v, L) => ((), "ok " ++ C1Glue.showVal v ++ " " ++ " ".intercalate (L.map C1Glue.showVal))
+      | none => ((), "stuck")
+    | none => ((), "bad-request")
+  | [.list (.atom "compile2" :: chs)] =>
+    match C2Glue.parseSq chs with
+    | some sq => ((), "ok " ++ " ".intercalate ((QM.RefSem.C2.compileSq C2Glue.Γ₀ sq).1.map C0Glue.showInstr))
+    | none => ((), "bad-request")
+  | [.list (.atom "eval2" :: chs)] =>
+    match C2Glue.parseSq chs with
+    | some sq =>
+      match QM.RefSem.C2.evalSq C2Glue.Γ₀ [QM.VM.Val.nil] QM.VM.Val.nil sq with
+      | some (v, L) => ((), "ok " ++ C2Glue.showVal v ++ " " ++ " ".intercalate (L.map C2Glue.showVal))
       | none => ((), "stuck")
     | none => ((), "bad-request")
   | _ => ((), "bad-request")
